@@ -998,6 +998,8 @@ func exec1(c px.Context, op string, args []sx.Sexp) core.Result {
 		return res
 	case "teq", "teq3":
 		return execTypes(c, op, args)
+	case "refl": // implementation only: reflected objects of three Go struct types
+		return execReflected(c, args)
 	case "tstype": // implementation only: Timestamp TYPES built through the API with bounds in given time zones (SECS NANOS OFFA OFFB)
 		return execTimestampTypes(args)
 	case "objcheck": // implementation only: objectType.Equals on catalogue types = equality of their descriptors
@@ -2081,6 +2083,11 @@ func gen(g *core.G) {
 	// a string holding the key bytes of each (the raw-string class)
 	ku := kindUniverse()
 	g.Emit("@objcheck")
+	for i := 0; i < nRefl; i++ {
+		for j := 0; j < nRefl; j++ {
+			g.Emit(fmt.Sprintf("@refl %d %d", i, j))
+		}
+	}
 	for _, s := range []int64{0, 1000, -1, 1500000000} { // Timestamp types with one instant as their bound, written in two zones
 		for _, n := range []int64{0, 5} {
 			for _, oa := range []int64{0, 3600, -18000} {
